@@ -26,31 +26,34 @@ CLAIMED = {
     ),
     "C12": dict(
         category="fault_enumeration",
-        text=("Per generated single-file template (85% laid out over several lines with non-ASCII text before "
+        text=("Per generated template or multi-file template set (85% laid out over several lines with non-ASCII text before "
               "expressions): every probe site reached in the fault-free run x each of 21 exception classes (builtin, "
               "custom with extra constructor arguments, custom __str__, RecursionError, four outside Exception) is made "
               "to fail in its own render - enumerated, not sampled - plus two-fault plans with an earlier recovered "
               "failure. Oracle on the raised exception: class preserved (+RenderError iff Exception subclass; "
               "RecursionError untouched; non-Exceptions never become Exceptions), args / exit code preserved, the first "
               "(expression, file, line, column) record of the message is an expression unit enclosing the failing call "
-              "at its true position, no stale extra records, nothing returned."),
+              "at its true position, followed by exactly the enclosing use-macro sites (text, file, line, column) innermost "
+              "first, no stale records, nothing returned."),
         design_ref="DESIGN.md 3.2",
-        note=("Trusted: the generator's site table (offsets recorded while serialising). Multi-file macro / load: "
-              "chains (call-site stacks), <?python ?> blocks and async interrupts between bytecodes are not generated "
-              "yet; ';;' escapes and entities inside tal:define / tal:attributes lists are not generated."),
+        note=("Trusted: the generator's site table (offsets recorded while serialising) and sim/model.py for the stack of "
+              "enclosing use-macro sites. 35% of cases are multi-file sets (macro libraries reached through load:). "
+              "One known finding is recorded rather than repaired (entity-drift, known_findings.json): positions after "
+              "character entities in TAL attribute values. <?python ?> blocks and interrupts between bytecodes are not generated."),
         technique="deterministic fault enumeration at the expression-evaluation seam (every reached site x exception zoo) with a generator-known site table as oracle",
     ),
     "C13": dict(
         category="fault_enumeration",
         text=("Generated templates with tal:on-error on about half of the elements (nested up to depth 3 below the "
               "root, with omit-tag, repeat, define, condition, switch/case, content/replace, attributes in between); "
-              "per template 47 fault plans make sets of 1-3 evaluation points raise (first/middle/last expression, "
-              "inside and after inner handlers, in the fallback expression; classes inside and outside Exception) with "
+              "per template 47+ fault plans in two stages (sites reached fault-free, then sites only reached because of "
+              "those faults: fallback expressions, later alternatives) make sets of 1-4 evaluation points raise, with "
               "on_error_handler absent / recording / failing. The reference interpreter predicts output text, handler "
               "calls and the propagated exception. Sampled plans per template: evidence, not proof."),
         design_ref="DESIGN.md 3.3",
-        note=("Trusted: sim/model.py for the generated subset. Macros and i18n blocks between nested handlers are not "
-              "generated yet; error.lineno/offset are not compared."),
+        note=("Trusted: sim/model.py for the generated subset (macros, slots and i18n blocks between nested handlers are "
+              "generated; a define-slot inside a translation block is not). error.type/value are compared always, "
+              "error.lineno/offset when the failure happened in the same render function as the handler."),
         technique="deterministic fault injection (sets of failing evaluation points) with a reference interpreter as output oracle",
     ),
     "C14": dict(
@@ -97,7 +100,9 @@ CLAIMED = {
         design_ref="DESIGN.md 3.6",
         note=("Strictly sequential (one server thread); reload decisions are modelled by the mtime rule, "
               "same-mtime rewrites accept either version. Trusted: a fresh PageTemplateFile on a private copy as "
-              "the source of expected text. package-relative specs are not exercised."),
+              "the source of expected text. Package-relative specs are exercised read-only through the repository's own "
+              "chameleon.tests package; zip/egg resources are not simulated. After an injected fault the object is "
+              "tainted: only the set of versions it can legitimately hold is accepted until a fresh mtime resynchronises it."),
         technique="deterministic simulation: operation histories under a simulated clock and faulty disk, checked step by step against a reference model of file system + reload rule + search-path walk",
     ),
 }
